@@ -249,6 +249,6 @@ def check(F, R, tier):
 
 LEVEL_TEXT = ("Decides on all CFG paths: reservation before success, un-reservation on every refusal after it, ownership hand-over discipline "
               "(release by the creator only, acquisition only by the last leaver), own-role constants in Drop/forced removal, loop re-checks in "
-              "reserve_port and the disjointness of the role bits. Necessary conditions; races between attach and teardown are not decided.")
+              "reserve_port and the disjointness of the role bits. Necessary conditions; Also: a teardown unlinks the name once (no explicit removal in cal-level Drop impls). Races between attach and teardown are not decided.")
 LEVEL_NOTE = "Trusted: rustc MIR. Not decided: behaviour under interleavings."
 TECHNIQUE = "static analysis: no-error-after-effect path rule, only-under-arm rules, constant-argument rules, enum discriminant check, sibling cross-check"
